@@ -19,7 +19,8 @@ def main():
             print(d, "patch does not apply:", ap.stderr[:200]); continue
         t0 = time.time()
         try:
-            p = subprocess.run([os.path.join(ROOT, "check"), prop, "--tier", tier], capture_output=True, text=True, cwd=ROOT, timeout=3600)
+            p = subprocess.run([os.path.join(ROOT, "check"), prop, "--tier", tier], capture_output=True, text=True, cwd=ROOT, timeout=3600,
+                               env=dict(os.environ, VERIF_EVIDENCE_DIR=os.path.join(ROOT, ".build", "seed-evidence")))
             out, rc = p.stdout, p.returncode
         finally:
             subprocess.run(["git", "-C", "/repo", "checkout", "--", "."])
